@@ -3,6 +3,7 @@
 package main
 
 import (
+	"testing/iotest"
 	"encoding/json"
 	"fmt"
 	"os"
@@ -408,6 +409,17 @@ func runItem(w *hx.Worker, sh *shared, it genfam.Item, onlyInput *string) {
 				return
 			}
 			w.Count("evaluations", 1)
+			{
+				// a reader that hands out its last bytes together with io.EOF, and one byte at a time
+				lx, err := gen.Lex("f.txt", iotest.DataErrReader(strings.NewReader(in)))
+				if d := sameRun(want, collect(lx, err, func() {})); d != "" {
+					w.Violate(hx.Violation{Key: key(it, in) + " :: Lex(DataErrReader)", Class: "generated-differs", Detail: map[string]any{"what": "generated Lex(reader returning data together with io.EOF) vs generated Lex(strings.Reader): " + d}})
+				}
+				lx, err = gen.Lex("f.txt", iotest.DataErrReader(iotest.OneByteReader(strings.NewReader(in))))
+				if d := sameRun(want, collect(lx, err, func() {})); d != "" {
+					w.Violate(hx.Violation{Key: key(it, in) + " :: Lex(one byte at a time)", Class: "generated-differs", Detail: map[string]any{"what": "generated Lex(one byte per Read, last with io.EOF) vs generated Lex(strings.Reader): " + d}})
+				}
+			}
 			if sd, ok := gen.(lexer.StringDefinition); ok {
 				lx, err := sd.LexString("f.txt", in)
 				if d := sameRun(want, collect(lx, err, func() {})); d != "" {
